@@ -223,6 +223,7 @@ func runC16(c *Ctx) {
 			continue
 		}
 		ruleResetComplete(c, p)
+		ruleGrowByAppend(c, p, "C16.fresh")
 	}
 	p := c.Prog(core.CfgDefault)
 	if p == nil {
@@ -231,6 +232,7 @@ func runC16(c *Ctx) {
 	ruleResetBefore(c, p, "C16.before")
 	ruleDict(c, p, "C16.dict")
 	ruleRebuild(c, p, "C16.rebuild")
+	ruleNoAdopt(c, p, "C16.alias")
 	c.R.Assumptions = append(c.R.Assumptions,
 		"decided: Reset clears every content field that Append*/DecodeColumn/Prepare write; block decoding resets each accepted target on every path; Prepare renumbers the dictionary from a cleared map and index and rebuilds key columns from length 0; not decided: result equality after arbitrary histories")
 }
@@ -581,7 +583,10 @@ func runC18(c *Ctx) {
 		if !ok || (bo.Op != token.NEQ && bo.Op != token.EQL) {
 			return false, false
 		}
-		isStr := func(v ssa.Value) bool { b, ok := v.Type().Underlying().(*types.Basic); return ok && b.Kind() == types.String }
+		isStr := func(v ssa.Value) bool {
+			b, ok := v.Type().Underlying().(*types.Basic)
+			return ok && b.Kind() == types.String
+		}
 		if !isStr(bo.X) || !isStr(bo.Y) {
 			return false, false
 		}
@@ -825,6 +830,8 @@ func runC18(c *Ctx) {
 
 	ruleResetBefore(c, p, "C18.reset")
 	ruleColumnCount(c, p, "C18.colcount")
+	ruleConflictsSymm(c, p, "C18.symm")
+	ruleEndMarker(c, p, "C18.endmarker")
 	ruleAdopt(c, p, "C18.adopt")
 	ruleInferTables(c, p, "C18")
 	c.R.Assumptions = append(c.R.Assumptions,
@@ -935,5 +942,96 @@ func ruleAdopt(c *Ctx, p *core.Program, rule string) {
 	c.R.Count("inferable leaf columns", n)
 	if n < 2 {
 		c.R.Unk(rule, "population", cfg, "", sprintf("%d inferable leaf columns found", n))
+	}
+}
+
+// ruleNoAdopt (C16.alias): Append* copies, it never adopts the caller's slice.
+func ruleNoAdopt(c *Ctx, p *core.Program, rule string) {
+	c.R.Rule(rule, "ownership: no Append* method of a column type stores a slice parameter (or a re-slice of it) into the column: the column's storage must be its own, otherwise a later Append after Reset writes into the caller's array and rows already handed over change under the caller (and the other way round)")
+	cfg := p.Cfg.Name
+	n := 0
+	for _, ct := range columnTypes(p) {
+		for i := 0; i < ct.NumMethods(); i++ {
+			m := ct.Method(i)
+			if !strings.HasPrefix(m.Name(), "Append") {
+				continue
+			}
+			fn := p.Prog.FuncValue(m)
+			if fn == nil || fn.Blocks == nil {
+				continue
+			}
+			n++
+			key := ct.Obj().Name() + "." + m.Name()
+			var fromParam func(v ssa.Value, d int) bool
+			fromParam = func(v ssa.Value, d int) bool {
+				if d > 6 {
+					return false
+				}
+				switch x := v.(type) {
+				case *ssa.Parameter:
+					_, isSlice := x.Type().Underlying().(*types.Slice)
+					return isSlice && len(fn.Params) > 0 && x != fn.Params[0]
+				case *ssa.Slice:
+					return fromParam(x.X, d+1)
+				case *ssa.Phi:
+					for _, e := range x.Edges {
+						if fromParam(e, d+1) {
+							return true
+						}
+					}
+				case *ssa.ChangeType:
+					return fromParam(x.X, d+1)
+				}
+				return false
+			}
+			bad := false
+			for _, b := range fn.Blocks {
+				for _, in := range b.Instrs {
+					st, ok := in.(*ssa.Store)
+					if !ok || !fromParam(st.Val, 0) {
+						continue
+					}
+					ap := accessPath(st.Addr, 0)
+					if ap == "recv" || strings.HasPrefix(ap, "recv.") {
+						bad = true
+						c.R.Bad(rule, key, cfg, p.Pos(st.Pos()), "the caller's slice is stored into "+ap+" without a copy: column and caller share one backing array")
+					}
+				}
+			}
+			if !bad {
+				c.R.Ok(rule, key, cfg, p.Pos(fn.Pos()), "no parameter slice adopted")
+			}
+		}
+	}
+	c.R.Floor(rule, cfg, n, 60)
+}
+
+// ruleEndMarker: Block.End() is true for the empty block only.
+func ruleEndMarker(c *Ctx, p *core.Program, rule string) {
+	c.R.Rule(rule, "constant folding of Block.End over the sign cases of (Columns, Rows): it is true exactly when both are zero - the end-of-data shortcut of DecodeRawBlock returns before the column-count and `rows without target` checks, so a looser predicate lets a malformed header (0 columns, N rows or N columns, 0 rows) bypass them and the block is silently dropped with the targets keeping the previous block's rows")
+	cfg := p.Cfg.Name
+	end := p.Method(core.PkgProto, "Block", "End")
+	if !c.must(p, "(*proto.Block).End", end != nil) {
+		return
+	}
+	var wrong []string
+	for _, cs := range [][2]int64{{0, 0}, {0, 1}, {1, 0}, {1, 1}, {0, 7}, {3, 0}} {
+		v, ok := core.FoldPredicate(end, map[string]int64{"Columns": cs[0], "Rows": cs[1]})
+		if !ok {
+			c.R.Unk(rule, "Block.End", cfg, p.Pos(end.Pos()), "Block.End is not a loop-free predicate over Columns and Rows")
+			return
+		}
+		want := int64(0)
+		if cs[0] == 0 && cs[1] == 0 {
+			want = 1
+		}
+		if v != want {
+			wrong = append(wrong, sprintf("End(Columns=%d, Rows=%d) = %v", cs[0], cs[1], v != 0))
+		}
+	}
+	if len(wrong) > 0 {
+		c.R.Bad(rule, "Block.End", cfg, p.Pos(end.Pos()), strings.Join(wrong, "; "))
+	} else {
+		c.R.Ok(rule, "Block.End", cfg, p.Pos(end.Pos()), "true exactly for Columns = 0 and Rows = 0 (6 cases folded)")
 	}
 }
